@@ -6,7 +6,9 @@ PROPERTIES = {
         level="proof",
         claim="reset contracts over the mechanically extracted veneer state vector (deactivate, endSimulation, every context manager, "
         "start/endScenario, instantiateSimulator); override bookkeeping and revert on scenario stop; Simulation.__init__ reaches its "
-        "whole clean-up from every exceptional exit of its try body; dynamic proxy isolation",
+        "whole clean-up from every exceptional exit of its try body; dynamic proxy isolation; the compiled scenario object reads the same after "
+        "beginSimulation ; endSimulation (REAL __init__ / _bindTo, every attribute); a start of the top-level scenario that fails half-way is wound down by the quiet "
+        "_stop without raising (recorders that never began recording) and the veneer is reset whatever that _stop does; a sub-behaviour whose start fails is not left running",
         note="simulator back ends, user code and scenario/behavior objects are modelled objects whose methods log events and may raise",
         assumptions=[
             "veneer module state = names declared `global` in functions of the module + module-level mutable displays + assigned attributes of scenic.core.object_types (mechanical extraction)",
